@@ -16,7 +16,7 @@ AllIdChars(s) == Len(s) > 0 /\ \A i \in 1..Len(s) : IsIdChar(Ch(s, i))
 IsPreId(s) == AllIdChars(s) /\ (AllDigits(s) => IsNumId(s))
 IsMetaId(s) == AllIdChars(s)
 
-NoVersion == [ok |-> FALSE, major |-> 0, minor |-> 0, patch |-> 0, pre |-> "", meta |-> ""]
+NoVersion == [ok |-> FALSE, major |-> "0", minor |-> "0", patch |-> "0", pre |-> "", meta |-> ""]
 
 SemverParse(raw) ==
   LET s0 == IF HasPrefix(raw, "v") THEN DropPrefix(raw, 1) ELSE raw
@@ -31,9 +31,10 @@ SemverParse(raw) ==
       okPre == dash = 0 \/ (\A x \in SeqToSet(SplitBy(pre, ".")) : IsPreId(x))
       okMeta == plus = 0 \/ (\A x \in SeqToSet(SplitBy(meta, ".")) : IsMetaId(x))
   IN IF okNums /\ okPre /\ okMeta
-     THEN [ok |-> TRUE, major |-> ToNat(parts[1]),
-           minor |-> IF Len(parts) >= 2 THEN ToNat(parts[2]) ELSE 0,
-           patch |-> IF Len(parts) >= 3 THEN ToNat(parts[3]) ELSE 0,
+     \* numeric identifiers carry no leading zeros, so the digit string IS the canonical number (no 32-bit arithmetic)
+     THEN [ok |-> TRUE, major |-> parts[1],
+           minor |-> IF Len(parts) >= 2 THEN parts[2] ELSE "0",
+           patch |-> IF Len(parts) >= 3 THEN parts[3] ELSE "0",
            pre |-> pre, meta |-> meta]
      ELSE NoVersion
 
@@ -46,7 +47,7 @@ EffVersion(c) ==
   LET v0 == IF c.version = "" THEN "v0.0.0-rc0" ELSE c.version
       p == IF c.schema = "none" THEN NoVersion ELSE SemverParse(v0)
   IN IF p.ok
-     THEN [version |-> NatToStr(p.major) \o "." \o NatToStr(p.minor) \o "." \o NatToStr(p.patch),
+     THEN [version |-> p.major \o "." \o p.minor \o "." \o p.patch,
            pre  |-> IF c.prerelease # "" THEN c.prerelease ELSE p.pre,
            meta |-> IF c.metadata # "" THEN c.metadata ELSE p.meta, split |-> TRUE]
      ELSE [version |-> v0, pre |-> c.prerelease, meta |-> c.metadata, split |-> FALSE]
